@@ -102,9 +102,9 @@ theorem lemma_scanMeta_found (buf : Bytes) (j ioff ilen : Nat)
     and `rc` entries, the first one carrying the metadata GUID is entry `j` and points to `mo` ≥ 256 KiB;
     at `mo` the metadata table has the `metadata` signature and `mc` entries, the first one carrying
     the virtual-disk-size GUID is entry `i`, with item offset `ioff` at or after the end of the entry
-    table and item length 8; the eight bytes at `mo + ioff` are the little-endian `size`; the stream
+    table and item length 8; the stream
     reaches the end of that item. -/
-structure VhdxImage (s : Bytes) (rc j mo mc i ioff size : Nat) : Prop where
+structure VhdxImage (s : Bytes) (rc j mo mc i ioff : Nat) : Prop where
   regi : leNat (slice s 196608 196612) = 0x69676572
   rcount : leNat (slice s 196616 196620) = rc
   rc_lt : rc < 2048
@@ -124,7 +124,7 @@ structure VhdxImage (s : Bytes) (rc j mo mc i ioff size : Nat) : Prop where
   ioff_ge : 32 + mc * 32 ≤ ioff
   hlen : mo + ioff + 8 ≤ s.length
 
-theorem lemma_image_region (s : Bytes) (rc j mo mc i ioff size : Nat) (h : VhdxImage s rc j mo mc i ioff size) :
+theorem lemma_image_region (s : Bytes) (rc j mo mc i ioff : Nat) (h : VhdxImage s rc j mo mc i ioff) :
     findMetaRegionB (sliceOf s 196608 65536) = .ok (some mo) := by
   have hl := h.hlen
   have hmo := h.mo_ge
@@ -155,7 +155,7 @@ theorem lemma_image_region (s : Bytes) (rc j mo mc i ioff size : Nat) (h : VhdxI
     have e' : 196608 + (16 + j * 32 + 24) = 196624 + j * 32 + 24 := by omega
     rw [e, e']; exact h.roff
 
-theorem lemma_image_entry (s : Bytes) (rc j mo mc i ioff size : Nat) (h : VhdxImage s rc j mo mc i ioff size) :
+theorem lemma_image_entry (s : Bytes) (rc j mo mc i ioff : Nat) (h : VhdxImage s rc j mo mc i ioff) :
     findMetaEntryB (sliceOf s mo 65536) = .ok (some (ioff, 8)) ∧
     entriesEnd (sliceOf s mo 65536) = 32 + mc * 32 ∧
     (sliceOf s mo 65536).take 8 = ascii "metadata" := by
@@ -199,10 +199,10 @@ theorem lemma_image_entry (s : Bytes) (rc j mo mc i ioff size : Nat) (h : VhdxIm
     exact this
 
 /-- well-formed images satisfy both hypotheses of the chunk-independence theorem -/
-theorem lemma_image_hyps (s : Bytes) (rc j mo mc i ioff size : Nat) (h : VhdxImage s rc j mo mc i ioff size) :
+theorem lemma_image_hyps (s : Bytes) (rc j mo mc i ioff : Nat) (h : VhdxImage s rc j mo mc i ioff) :
     VhdxForward s ∧ VhdxMetaSigOK s := by
-  have hr := lemma_image_region s rc j mo mc i ioff size h
-  obtain ⟨he, hes, hsig⟩ := lemma_image_entry s rc j mo mc i ioff size h
+  have hr := lemma_image_region s rc j mo mc i ioff h
+  obtain ⟨he, hes, hsig⟩ := lemma_image_entry s rc j mo mc i ioff h
   have hl := h.hlen
   have hmo := h.mo_ge
   have hoff := lemma_metaOff s mo (by omega) hr
